@@ -136,13 +136,16 @@ def gen_numeric(tier, rng):
         yield {"p": spec, "route": rng.choice(["ndpoly", "from_attributes_retain", "from_attributes", "polynomial_dict", "ndpoly_names",
                                                "multiply_where", "add_where", "call_arrays", "getitem_index", "where_cond",
                                                "choose_index", "repeat_counts", "monomial_bounds", "glexsort_keys", "savetxt_none",
-                                               "glexindex_bounds", "bindex_bounds", "cross_truncate_args", "lead_sortable_args"]),
+                                               "glexindex_bounds", "bindex_bounds", "cross_truncate_args", "lead_sortable_args",
+                                               "call_function_form", "polynomial_dict_kept", "list_arguments"]),
                "edtype": rng.choice(["uint32", "int64", "uint32", "int32"])}
 
 
 @check("C17", "numeric_arguments.unchanged", gen_numeric, functions=("numpoly.ndpoly", "numpoly.polynomial_from_attributes", "numpoly.multiply"),
        note="bounded: plain numeric arrays handed to constructors and functions (exponent tables of dtype uint32/int32/int64, "
-            "coefficient arrays, where= masks, index/count arrays, evaluation points) keep their bytes")
+            "coefficient arrays, where= masks, index/count arrays, evaluation points) keep their bytes; containers handed over "
+            "(the keyword mapping and argument tuple of numpoly.call(poly, args, kwargs), a dict of terms, lists of operands) keep "
+            "their entries")
 def numeric_arguments(inp):
     import numpoly
     spec = inp["p"]
@@ -158,7 +161,12 @@ def numeric_arguments(inp):
     idx = numpy.array([0])
     lo, hi = numpy.array([-1, 0]), numpy.array([2, 3])          # index bounds, with a negative lower bound (clipped to 0 inside)
     grid = numpy.array([[0, 0], [1, 0], [0, 2], [3, 1]])
-    held = {"E": E, "C": C, "mask": mask, "pts": pts, "idx": idx, "p": p, "lo": lo, "hi": hi, "grid": grid}
+    kw = {names[-1]: numpy.array([4, 5, 6])}                   # the keyword mapping of the function form numpoly.call(poly, args, kwargs)
+    pargs = tuple(pts[: len(names) - 1])
+    terms = {tuple(int(x) for x in e): c for e, c in zip(E, C)}
+    operands = [p, p + 1]
+    held = {"E": E, "C": C, "mask": mask, "pts": pts, "idx": idx, "p": p, "lo": lo, "hi": hi, "grid": grid,
+            "kw": kw, "pargs": pargs, "terms": terms, "operands": operands}
     before = {k: snapshot(v) for k, v in held.items()}
     route = inp["route"]
     try:
@@ -201,6 +209,15 @@ def numeric_arguments(inp):
             numpoly.cross_truncate(grid, lo, 0)
         elif route == "lead_sortable_args":
             numpoly.lead_exponent(p), numpoly.lead_coefficient(p), numpoly.sortable_proxy(p)
+        elif route == "call_function_form":
+            numpoly.call(p, pargs, kw)
+            numpoly.call(p, pargs, kw)                          # the caller's mapping is reused
+        elif route == "polynomial_dict_kept":
+            numpoly.polynomial(terms, names=names)
+            numpoly.polynomial(terms, names=names)
+        elif route == "list_arguments":
+            numpoly.concatenate(operands), numpoly.align_polynomials(*operands), numpoly.sum(operands, axis=0)
+            numpoly.polynomial(operands)
         elif route == "savetxt_none":
             import io
             numpoly.savetxt(io.StringIO(), p)
